@@ -67,7 +67,8 @@ Bufs == {1, 2}
 \*     "empty0" = "", "lo0" = "localhost:0", "if0" = "<interface address>:0", "grp0" = "<g1>:0": own ephemeral
 \*     port, so nothing of the scenario's traffic is addressed to them (constructor/getter coverage)
 \*     "solo" = ":Q": alone on its own port Q, reached by unicast only (act "uni")
-BindIp(b) == IF b \in {"any", "solo"} THEN "0.0.0.0" ELSE IF b = "grp" THEN G1
+\*     "any4" = "0.0.0.0:P": the wildcard spelled out (the same socket as ":P" to the kernel and to the model)
+BindIp(b) == IF b \in {"any", "any4", "solo"} THEN "0.0.0.0" ELSE IF b = "grp" THEN G1
              ELSE IF b = "if" /\ Kind = "mc" THEN "ifip"
              ELSE IF b \in {"empty0", "lo0", "if0", "grp0"} THEN "other-port" ELSE "lo"
 RPort == 1
